@@ -227,13 +227,18 @@ func NewRequestFromHTTP(r *http.Request) (req *Request, code int, err error) {
 				return nil, http.StatusBadRequest, fmt.Errorf("malformed request body")
 			}
 
-			req.Query = body.Query
+			if body.Query != "" {
+				// a query given in the body takes precedence over a "query" URL parameter
+				req.Query = body.Query
+			}
 			req.OperationName = body.OperationName
 			req.VariableValues = body.Variables
 			req.Extensions = body.Extensions
 		case "application/graphql":
-			body, _ := ioutil.ReadAll(r.Body)
-			req.Query = string(body)
+			if body, _ := ioutil.ReadAll(r.Body); len(body) > 0 {
+				// a query given in the body takes precedence over a "query" URL parameter
+				req.Query = string(body)
+			}
 		default:
 			return nil, http.StatusBadRequest, fmt.Errorf("invalid content-type")
 		}
